@@ -273,6 +273,8 @@ class Renderer:
             head += "(icontract.DBC)"
         elif root == "meta":
             head += "(metaclass=icontract.DBCMeta)"
+        elif root == "abc":
+            head += "(abc.ABC)"
         lines.append(head + ":")
         body = []
         if shape == "slots":
